@@ -58,7 +58,8 @@ func executeCompaction(db *DB) (compactionMetadata *proto.CompactionMetadata, er
 	compactionAction := db.sstableManager.candidateTablesForCompaction(db.compactedMaxSizeBytes, db.compactionRatio)
 	paths := compactionAction.pathsToCompact
 	numRecords := compactionAction.totalRecords
-	if len(paths) <= db.compactionFileThreshold {
+	// nothing selected means nothing to do, whatever the threshold is (it is an int option and may be negative)
+	if len(paths) == 0 || len(paths) <= db.compactionFileThreshold {
 		return nil, nil
 	}
 
